@@ -106,6 +106,12 @@ def gen_cases(tier, rng):
         c = gen_component(rng, ["OverdampedBrownian", "OverdampedBrownian-HighTemperature"], T)
         Nt = int(rng.integers(150, 1500))
         cases.append({"cls": "measured+parity", "comp": c, "Nt": Nt, "dt": float(rng.choice([0.5, 1.0, 2.0])), "cost": 1 + Nt / 500})
+    # axis lengths for which the derived frequency axis contains exactly 0.0 (for most lengths rounding leaves 1e-16 there)
+    for Nt in (280, 560, 1120):
+        c = gen_component(rng, ["OverdampedBrownian"], 300.0)
+        c.pop("matsubara", None)
+        c["cortime"] = 25.0
+        cases.append({"cls": "measured+parity", "comp": c, "Nt": Nt, "dt": 1.0, "cost": 1 + Nt / 500})
     return cases
 
 
